@@ -21,7 +21,7 @@ from vlib.dialects import make_encoder, ENCODERS
 
 ID = "C13"
 LEVEL = "exploration"
-BUDGET = {"quick": 60, "thorough": 700}
+BUDGET = {"quick": 150, "thorough": 900}
 RULE = (
     "case = (encoder, options, call style, module spec). 40% of specs are forced "
     "into block-heavy shapes: only groups at top level, duplicate block names, a "
@@ -303,13 +303,142 @@ def random_cases(acc, enc, n, seed):
     body()
 
 
+class Zygote:
+    """A process that has imported pvl and this harness and done nothing else; every
+    case handed to it runs in a fork of that image, so that the first of a case's
+    calls is also the first thing the pvl library does in its process ("the same
+    text every time ... within a process" includes the first time)."""
+
+    def __init__(self):
+        import subprocess
+        import sys
+        self.proc = subprocess.Popen(
+            [sys.executable, "-c", "from props import c13; c13.zygote_main()"],
+            stdin=subprocess.PIPE, stdout=subprocess.PIPE)
+
+    def run(self, case):
+        import pickle
+        pickle.dump(case, self.proc.stdin)
+        self.proc.stdin.flush()
+        res = pickle.load(self.proc.stdout)
+        if res[0] == "harness":
+            raise RuntimeError("C13 zygote: " + res[1])
+        return res
+
+    def close(self):
+        try:
+            self.proc.stdin.close()
+            self.proc.wait(timeout=30)
+        except Exception:
+            self.proc.kill()
+
+
+def zygote_main():
+    import os
+    import pickle
+    import sys
+    inp = sys.stdin.buffer
+    out = os.fdopen(os.dup(1), "wb")
+    os.dup2(2, 1)               # nothing the cases print can reach the result pipe
+    while True:
+        try:
+            case = pickle.load(inp)
+        except EOFError:
+            break
+        r, w = os.pipe()
+        pid = os.fork()
+        if pid == 0:
+            os.close(r)
+            try:
+                res = run_case(case)
+            except BaseException as e:          # noqa: B902 - reported, not hidden
+                res = ("harness", f"{type(e).__name__}: {e}")
+            with os.fdopen(w, "wb") as f:
+                pickle.dump(res, f)
+            os._exit(0)
+        os.close(w)
+        with os.fdopen(r, "rb") as f:
+            data = f.read()
+        os.waitpid(pid, 0)
+        res = pickle.loads(data) if data else ("harness", "child wrote nothing")
+        pickle.dump(res, out)
+        out.flush()
+
+
+# modules whose statements have to be wrapped inside or next to quoted strings
+WRAPPED = [
+    [["K", {"seq": ["alpha beta gamma delta epsilon", "zeta eta theta iota kappa lambda",
+                    "mu nu xi omicron pi rho sigma tau", 5]}]],
+    [["K", {"set": ["alpha beta gamma delta epsilon", "zeta eta theta iota kappa lambda",
+                    "mu nu xi omicron pi rho sigma tau"]}]],
+    [["NOTE", "a string of words that is longer than the width of one line of a "
+              "label and so has to be continued on the next"]],
+    [["g", {"grp": [["K", {"seq": ["one two three four five six seven", "eight nine",
+                                   "ten eleven twelve thirteen fourteen fifteen"]}]]}]],
+    [["K", {"seq": [{"q": [1.5, "m"]}] * 14}], ["S", {"seq": ["ab cd"] * 20}]],
+    [["K", {"seq": [{"seq": ["alpha beta gamma delta", "epsilon zeta eta theta"]},
+                    {"seq": ["iota kappa lambda mu nu xi", "omicron pi rho sigma"]}]}]],
+]
+
+
+def fresh_cases(acc, enc, n, seed):
+    """The cases of random_cases(), each in a process that has done nothing before."""
+    z = Zygote()
+    try:
+        def one(case):
+            r = z.run(case)
+            acc.event(f"fresh:{enc}:{r[0]}")
+            acc.event("fresh-style:" + case["style"])
+            nt = has_block(case["spec"]) or case["spec"] in WRAPPED
+            acc.case(key="fresh" + repr(case), nontrivial=nt,
+                     sample={"enc": enc, "style": case["style"], "fresh": True,
+                             "spec": repr(case["spec"])[:200]} if nt else None)
+            if r[0] == "fail":
+                acc.fail(r[1].replace("C13/", "C13/fresh-process/", 1),
+                         dict(case, fresh=True), r[2])
+
+        for spec in WRAPPED:
+            for style in ("other-dialects-between", "instance-interleaved",
+                          "shared-decoder", "dumps-default"):
+                for cfg in ({}, {"width": 40}):
+                    one({"enc": enc, "cfg": cfg, "spec": spec, "style": style,
+                         "others": [PROVOKERS[-3]], "iterval": None})
+
+        @hseed(seed)
+        @settings(max_examples=n, database=None, deadline=None,
+                  phases=[Phase.generate],
+                  suppress_health_check=list(HealthCheck))
+        @given(cases(enc))
+        def body(case):
+            if acc.expired():
+                acc.notes["budget_exhausted"] = 1
+                return
+            one(case)
+
+        body()
+    finally:
+        z.close()
+
+
 def shards(tier, seed):
     n = 350 if tier == "quick" else 7500
+    k = 120 if tier == "quick" else 2500
     return [("random_cases", dict(enc=ENCODERS[j % 4], n=n, seed=seed * 1000 + j))
-            for j in range(16)]
+            for j in range(16)] + \
+           [("fresh_cases", dict(enc=ENCODERS[j % 4], n=k, seed=seed * 1000 + 500 + j))
+            for j in range(8)]
 
 
 def replay(case):
+    if case.get("fresh"):
+        z = Zygote()
+        try:
+            r = z.run({k: v for k, v in case.items() if k != "fresh"})
+        finally:
+            z.close()
+        if r[0] == "fail":
+            return (r[1].replace("C13/", "C13/fresh-process/", 1), r[2])
+        return None
     r = run_case(case)
     if r[0] == "fail":
         return (r[1], r[2])
